@@ -1,14 +1,17 @@
 package checks
 
 import (
+	"bytes"
 	"fmt"
 	"math/rand"
 	"regexp"
+	"sort"
 	"unicode/utf8"
 
 	"github.com/opsidian/parsley/parsley"
 	"github.com/opsidian/parsley/text"
 
+	"verifharness/internal/gram"
 	"verifharness/internal/run"
 )
 
@@ -90,9 +93,11 @@ func specSkipWs(c []byte, cur int, mode int) (int, int, string) {
 	return end, -1, ""
 }
 
-var c09pieces = []string{"a", "b", "_", "1", "Z", " ", "\t", "\n", "\r\n", "\r", "\f", "é", "€", "😀", "\xff", "\xc3", "\xe2\x82", "ab", "foo", ".", "\"", "0"}
+var c09pieces = []string{"a", "b", "_", "1", "Z", " ", "\t", "\n", "\r\n", "\r", "\f", "é", "€", "😀", "\xff", "\xc3", "\xe2\x82", "ab", "foo", ".", "\"", "0", "/*", "*/", "/", "px", "7"}
 var c09runes = []rune{'a', 'b', ' ', '\n', '\r', 'é', '€', '😀', 'x', 0x7f, 0x80, 0xff, utf8.RuneError, '_'}
-var c09exprs = []string{"a+", "[ab]+", "\\s+", "é|€", "fo+", "[^a]", "a|ab", "(a)(b)?", ".", "\\w+", "(?s).", "[\\x00-\\x{10FFFF}]", "\\pL+", "a*b", "(\\d)(\\D)?"}
+var c09exprs = []string{"a+", "[ab]+", "\\s+", "é|€", "fo+", "[^a]", "a|ab", "(a)(b)?", ".", "\\w+", "(?s).", "[\\x00-\\x{10FFFF}]", "\\pL+", "a*b", "(\\d)(\\D)?",
+	// a preferred alternative whose end lies far ahead and a short fallback; an optional tail after a long run
+	"/\\*[^*]*\\*/|/", "[0-9]+(?:\\s*px)?", "\"[^\"]*\""}
 
 func c09exec(j run.Job, a *run.Acc) {
 	r := rand.New(rand.NewSource(j.Seed))
@@ -123,10 +128,52 @@ func c09exec(j run.Job, a *run.Acc) {
 				raw = append([]byte(word), b)
 			}
 		}
+		long := j.Family == "long"
+		if long {
+			// LONG files: tokens of hundreds to tens of thousands of bytes (words, digit runs, whitespace runs, comments,
+			// strings), so that matches, arguments and the file itself cross 256, 4 KiB, 32 KiB and 64 KiB
+			raw = raw[:0]
+			unit := []int{40, 300, 300, 700, 5000, 40000}[r.Intn(6)]
+			for i, k := 0, 2+r.Intn(6); i < k; i++ {
+				n := 1 + r.Intn(unit)
+				if r.Intn(3) == 0 {
+					n = []int{255, 256, 257, 300, 4095, 4096, 4097}[r.Intn(7)]
+				}
+				switch r.Intn(8) {
+				case 0:
+					raw = append(raw, bytes.Repeat([]byte{'a'}, n)...)
+				case 1:
+					raw = append(raw, bytes.Repeat([]byte{"0123456789"[r.Intn(10)]}, n)...)
+					raw = append(raw, bytes.Repeat([]byte{' '}, []int{0, 1, 300}[r.Intn(3)])...)
+					raw = append(raw, "px"[:r.Intn(3)]...)
+				case 2:
+					raw = append(raw, bytes.Repeat([]byte{" \t\n\f"[r.Intn(4)]}, n)...)
+				case 3:
+					raw = append(append(append(raw, "/*"...), bytes.Repeat([]byte{'c'}, n)...), "*/"[:r.Intn(3)]...)
+				case 4:
+					raw = append(append(append(raw, '"'), bytes.Repeat([]byte{'s'}, n)...), "\""[:r.Intn(2)]...)
+				case 5:
+					raw = append(raw, bytes.Repeat([]byte("é"), n/2+1)...)
+				case 6:
+					raw = append(raw, bytes.Repeat([]byte("\r\n"), n/2+1)...)
+				default:
+					for q := 0; q < n; q++ {
+						raw = append(raw, c09pieces[r.Intn(len(c09pieces))]...)
+					}
+				}
+				if r.Intn(2) == 0 {
+					raw = append(raw, " \n;"[r.Intn(3)])
+				}
+			}
+		}
 		nPre := r.Intn(4)
 		pre := make([]int, nPre)
 		for i := range pre {
 			pre[i] = r.Intn(25)
+		}
+		if r.Intn(20) == 0 || (long && r.Intn(3) == 0) {
+			// after a large file: base offsets around and beyond 2^16 ... 2^40
+			pre = append(pre, gram.BigOffsets[r.Intn(len(gram.BigOffsets))])
 		}
 		post := r.Intn(2)
 		seedCase := r.Int63()
@@ -137,7 +184,7 @@ func c09exec(j run.Job, a *run.Acc) {
 		c := specNormalise(raw)
 		fs := parsley.NewFileSet()
 		for i, n := range pre {
-			fs.AddFile(text.NewFile(fmt.Sprintf("pre%d", i), make([]byte, n)))
+			fs.AddFile(gram.Filler(fmt.Sprintf("pre%d", i), n, 0))
 		}
 		mine := append([]byte{}, raw...) // the caller's own buffer ...
 		f := text.NewFile("f", mine)
@@ -170,10 +217,49 @@ func c09exec(j run.Job, a *run.Acc) {
 		if p0 := rd.Pos(0); int(p0) != base {
 			a.Violate("reader-pos", "reader-pos", d("Reader.Pos", map[string]any{"got": int(p0), "want": base}))
 		}
-		for idx := 0; idx <= len(c); idx++ {
-			cur := idx
+		var cursors []int
+		if !long {
+			for idx := 0; idx <= len(c); idx++ {
+				cursors = append(cursors, idx)
+			}
+		} else {
+			// a sample of positions: both ends, the starts of the long tokens (first byte after a change of byte class),
+			// the neighbourhood of every multiple of 256 / 4096 / 32768 that has one, and random ones
+			mark := map[int]bool{}
+			add := func(p int) {
+				if p >= 0 && p <= len(c) && !mark[p] && len(cursors) < 400 {
+					mark[p] = true
+					cursors = append(cursors, p)
+				}
+			}
+			for k := 0; k < 6; k++ {
+				add(k)
+				add(len(c) - k)
+			}
+			for p := 1; p < len(c); p++ {
+				if c[p] != c[p-1] && (p < 2 || c[p] != c[p-2]) {
+					add(p)
+					add(p - 1)
+				}
+			}
+			for _, m := range []int{32768, 4096, 256} {
+				for p := m; p <= len(c); p += m {
+					add(p - 1)
+					add(p)
+					add(p + 1)
+				}
+			}
+			for k := 0; k < 40; k++ {
+				add(rc.Intn(len(c) + 1))
+			}
+			sort.Ints(cursors)
+			a.SetMax("long files: bytes", int64(len(c)))
+			a.Count("long files", 1)
+		}
+		for idx := range cursors {
+			cur := cursors[idx]
 			if seedCase%4 >= 2 { // half of the files are swept from the end to the start: the order of calls must not matter
-				cur = len(c) - idx
+				cur = cursors[len(cursors)-1-idx]
 			}
 			pos := parsley.Pos(base + cur)
 			a.Count("positions", 1)
@@ -204,7 +290,11 @@ func c09exec(j run.Job, a *run.Acc) {
 					}
 				}
 				// strings: substrings of the content at the cursor, one-bit mutations of them, over-long strings ending past EOF
-				for l := 1; l <= 4; l++ {
+				lens := []int{1, 2, 3, 4}
+				if long {
+					lens = append(lens, 255, 256, 257, 300+rc.Intn(200), 4096, 4097+rc.Intn(3000))
+				}
+				for _, l := range lens {
 					var s []byte
 					if cur+l <= len(c) {
 						s = append(s, c[cur:cur+l]...)
@@ -340,13 +430,20 @@ func init() {
 				jobs = append(jobs, run.Job{Family: "files", Seed: seed*100000 + int64(i), N: per})
 			}
 			jobs = append(jobs, run.Job{Family: "byte-sweep", Seed: seed*100000 + 90000, N: 256 * 6 * 3})
+			nl, perl := 16, 12
+			if tier == "thorough" {
+				nl, perl = 64, 30
+			}
+			for i := 0; i < nl; i++ {
+				jobs = append(jobs, run.Job{Family: "long", Seed: seed*100000 + 95000 + int64(i), N: perl})
+			}
 			return jobs
 		},
 		Exec: c09exec,
 		Finish: func(tier string, a *run.Acc, cov map[string]any) string {
-			cov["rule"] = "case = one file (pieces: ASCII, '_', digits, space, tab, LF, FF, CRLF, lone CR, 2/3/4-byte runes, truncated runes, 0xff, one piece in five an arbitrary byte 0-255; family byte-sweep: each of the 256 byte values after / before / at the end of six words) at a base offset varied by 0-3 preceding files (and an optional following file). " +
-				"At EVERY position 0..len: Remaining, IsEOF, ReadRune (14 runes), MatchString/MatchWord (substrings at the cursor, one-bit mutations, over-long strings ending past EOF), " +
-				"ReadRegexp/ReadRegexpSubmatch (15 expressions, oracle = regexp package anchored with \\A on the suffix), Readf (contract-honouring functions, value shorter than read), SkipWhitespaces in 4 modes " +
+			cov["rule"] = "case = one file (pieces: ASCII, '_', digits, space, tab, LF, FF, CRLF, lone CR, 2/3/4-byte runes, truncated runes, 0xff, one piece in five an arbitrary byte 0-255; family byte-sweep: each of the 256 byte values after / before / at the end of six words; family long: files of up to ~200 KB made of tokens of hundreds to tens of thousands of bytes, examined at up to 400 positions - ends, token starts, neighbours of the multiples of 256/4096/32768, random - with arguments of 255-7000 bytes) at a base offset varied by 0-3 preceding files, one case in 20 (a third of the long ones) after a file of 64 KiB ... 2^40 bytes (and an optional following file). " +
+				"At EVERY position 0..len (long: the sample): Remaining, IsEOF, ReadRune (14 runes), MatchString/MatchWord (substrings at the cursor, one-bit mutations, over-long strings ending past EOF), " +
+				"ReadRegexp/ReadRegexpSubmatch (18 expressions, oracle = regexp package anchored with \\A on the suffix), Readf (contract-honouring functions, value shorter than read), SkipWhitespaces in 4 modes " +
 				"are compared with loop-and-compare specifications: match => new = old + matched length <= EOF and returned bytes equal the file's, mismatch => old position; an out-of-bounds access shows as a panic. " +
 				"non-trivial = non-empty file; distinct = (raw content, base offset)"
 			if a.Counters["positions"] == 0 {
